@@ -1,13 +1,319 @@
-// placeholder, replaced below
+// IDManager scenarios: C05 (unique, in range, stable), C14 (capacity never lost), C15 (heartbeats).
+// Capacity DBGROUP_MAX_THREAD_NUM is a build variant (N1, N2, N3, N4, N8).
+#include <memory>
+#include <string>
+#include <vector>
+
 #include "common.hpp"
-namespace sim {
-namespace {
-void generate(Program &, dsim::Config &, dsim::Rng &, dsim::Rng &, int, int) {}
-void entry(void *) {}
-std::string render(const Program &) { return ""; }
-std::string tags(const Program &, const char *) { return ""; }
-const char *const kNames[] = {nullptr};
+#include "dbgroup/thread/id_manager.hpp"
+
+namespace sim
+{
+namespace
+{
+using dbgroup::thread::IDManager;
+constexpr size_t kN = dbgroup::thread::kMaxThreadNum;
+
+// the guarded hook in src/thread/id_manager.cpp asks us for the probe start
+thread_local size_t tl_probe_hash = 0;
+}  // namespace
+}  // namespace sim
+
+extern "C" size_t cpp_utility_verif_thread_hash() { return sim::tl_probe_hash; }
+
+namespace sim
+{
+void set_probe_hash(size_t h) { tl_probe_hash = h; }
+
+namespace
+{
+enum Profile : int { kTogether = 0, kWaves = 1, kExitRace = 2 };
+// per thread: op[0] = {kind 0, obj = start delay (yields by main before spawning), a = probe hash, b = number of GetThreadID calls,
+//                      c = hold yields}
+enum Probe : int { pWrap = 0, pReusedId, pClaimDuringExit, pOversubscribedWait, pFinalRound, pHbChecks, pProbes };
+const char *const kProbeNames[] = {"probe_wrapped_around_table", "id_reused_by_later_thread",
+                                   "claim_while_previous_owner_in_exit_cleanup", "claimant_waited_for_an_exit", "final_full_capacity_rounds",
+                                   "heartbeat_checks", nullptr};
+
+std::string g_prop;
+bool tagged(const char *tags) { return g_prop.empty() || strstr(tags, g_prop.c_str()) != nullptr; }
+
+struct HbRec {
+  std::weak_ptr<size_t> hb;
+  int owner;
+  size_t id;
+};
+
+struct State {
+  const Program *prog = nullptr;
+  int owner_of[kN];           // ghost: vthread in user code that holds the ID, -1 = none
+  bool in_user[dsim::kMaxVT];  // vthread is between its first GetThreadID return and the end of its user code
+  bool exiting[dsim::kMaxVT];  // user code ended, thread-exit cleanup may be running
+  bool joined[dsim::kMaxVT];
+  std::vector<HbRec> hbs;
+  uint64_t other_events = 0;
+  int holders = 0;             // vthreads that hold an ID and have not finished exiting (ghost upper bound)
+  // final phase
+  int arrived = 0;
+  int final_ids[kN];
+  int final_vt[kN];
+};
+State *S = nullptr;
+
+#define ORACLE(tags, cls, ...)                      \
+  do {                                              \
+    if (tagged(tags)) {                             \
+      char _c[160];                                 \
+      snprintf(_c, sizeof(_c), "%s %s", tags, cls); \
+      dsim::fail(_c, __VA_ARGS__);                  \
+    } else {                                        \
+      S->other_events++;                            \
+    }                                               \
+  } while (0)
+
+void check_heartbeats_alive(const char *when)
+{
+  dsim::Observer ob;
+  for (auto &r : S->hbs) {
+    dsim::probe(pHbChecks);
+    if (S->in_user[r.owner] && r.hb.expired()) {
+      ORACLE("[C15]", "heartbeat-expired-while-thread-running", " :: heartbeat of vt%d (ID %zu) is expired although the thread is still running (%s)",
+             r.owner, r.id, when);
+    }
+    if (S->joined[r.owner] && !r.hb.expired()) {
+      ORACLE("[C15]", "heartbeat-alive-after-thread-exit", " :: heartbeat of vt%d (ID %zu) is not expired although the thread has exited (%s)", r.owner,
+             r.id, when);
+    }
+  }
 }
-const Scenario kIdmScenario = {"idm", generate, entry, render, tags, kNames, nullptr};
+
+size_t get_id_checked(int call_no, size_t first)
+{
+  const int me = dsim::self();
+  bool oversub = S->holders >= static_cast<int>(kN);
+  dsim::op_begin("GetThreadID", 0);
+  const size_t id = IDManager::GetThreadID();
+  dsim::op_end();
+  if (id >= kN) {
+    ORACLE("[C05]", "id-out-of-range", " :: GetThreadID of vt%d returned %zu, capacity is %zu", me, id, kN);
+    return id;
+  }
+  if (call_no == 0) {
+    if (oversub) dsim::probe(pOversubscribedWait);
+    // C15: every heartbeat handed out to earlier owners of this ID must be expired by now
+    {
+      dsim::Observer ob;
+      for (auto &r : S->hbs) {
+        if (r.id == id && r.owner != me) {
+          dsim::probe(pReusedId);
+          if (S->exiting[r.owner] && !S->joined[r.owner] && !dsim::finished(r.owner)) dsim::probe(pClaimDuringExit);
+          if (!r.hb.expired()) {
+            ORACLE("[C15]", "id-reused-before-heartbeat-expired",
+                   " :: vt%d was given ID %zu while the heartbeat handed out to its previous owner vt%d is still unexpired", me, id, r.owner);
+          }
+        }
+      }
+    }
+    if (S->owner_of[id] != -1 && S->owner_of[id] != me) {
+      ORACLE("[C05]", "duplicate-id", " :: vt%d and vt%d both hold ID %zu while executing user code", me, S->owner_of[id], id);
+    }
+    S->owner_of[id] = me;
+    S->in_user[me] = true;
+    S->holders++;
+  } else if (id != first) {
+    ORACLE("[C05]", "id-not-stable", " :: call %d of GetThreadID by vt%d returned %zu, the first call returned %zu", call_no + 1, me, id, first);
+  }
+  return id;
 }
-extern "C" size_t cpp_utility_verif_thread_hash() { return 0; }
+
+void end_user_code(size_t id)
+{
+  const int me = dsim::self();
+  if (id < kN && S->owner_of[id] == me) S->owner_of[id] = -1;
+  S->in_user[me] = false;
+  S->exiting[me] = true;
+  dsim::count_fault(dsim::kFThreadExit);
+  // the thread-exit cleanup (thread_local destructors) runs under the scheduler; keep it marked as an API phase
+  dsim::op_begin("thread-exit cleanup", 0);
+}
+
+struct WArg {
+  int tid;
+};
+
+void worker_fn(void *p)
+{
+  const auto *w = static_cast<WArg *>(p);
+  const Op &o = S->prog->threads[static_cast<size_t>(w->tid)][0];
+  tl_probe_hash = static_cast<size_t>(o.a);
+  if ((static_cast<size_t>(o.a) % kN) + 1 >= kN) dsim::probe(pWrap);
+  size_t first = 0;
+  const int calls = static_cast<int>(o.b < 1 ? 1 : o.b);
+  for (int c = 0; c < calls; ++c) {
+    dsim::set_pos(c + 1);
+    const size_t id = get_id_checked(c, first);
+    if (c == 0) {
+      first = id;
+      dsim::op_begin("GetHeartBeat", 0);
+      std::weak_ptr<size_t> hb = IDManager::GetHeartBeat();
+      dsim::op_end();
+      S->hbs.push_back(HbRec{hb, dsim::self(), id});
+    }
+    check_heartbeats_alive("between GetThreadID calls");
+    dsim::yield();
+  }
+  for (int64_t i = 0; i < o.c; ++i) {
+    dsim::yield();
+    if ((i & 3) == 3) check_heartbeats_alive("while holding the ID");
+  }
+  check_heartbeats_alive("before thread exit");
+  dsim::set_pos(99);
+  end_user_code(first);
+}
+
+// final phase: kN fresh threads must all obtain distinct IDs while all of them are alive (no slot stayed reserved)
+void final_fn(void *p)
+{
+  const auto *w = static_cast<WArg *>(p);
+  tl_probe_hash = static_cast<size_t>(w->tid) * 7 + 3;
+  const size_t id = get_id_checked(0, 0);
+  const int k = S->arrived++;
+  S->final_ids[k] = static_cast<int>(id);
+  S->final_vt[k] = dsim::self();
+  if (S->arrived == static_cast<int>(kN)) {
+    for (int i = 0; i + 1 < static_cast<int>(kN); ++i) dsim::signal(S->final_vt[i]);
+    dsim::probe(pFinalRound);
+  } else {
+    dsim::wait_signal();
+  }
+  end_user_code(id);
+}
+
+void entry(void *)
+{
+  const Program &p = current_program();
+  S = new State{};
+  S->prog = &p;
+  for (auto &o : S->owner_of) o = -1;
+  const int n = static_cast<int>(p.threads.size());
+  std::vector<WArg> args(static_cast<size_t>(n));
+  std::vector<int> ids(static_cast<size_t>(n));
+  bool any_exit = false;
+  for (int t = 0; t < n; ++t) {
+    const Op &o = p.threads[static_cast<size_t>(t)][0];
+    for (int i = 0; i < o.obj; ++i) dsim::yield();
+    args[static_cast<size_t>(t)].tid = t;
+    for (int u = 0; u < t; ++u)
+      if (S->exiting[ids[static_cast<size_t>(u)]]) any_exit = true;
+    if (any_exit) dsim::count_fault(dsim::kFThreadRestart);
+    ids[static_cast<size_t>(t)] = dsim::spawn(worker_fn, &args[static_cast<size_t>(t)], "worker");
+  }
+  set_phase("history");
+  for (int t = 0; t < n; ++t) {
+    dsim::join(ids[static_cast<size_t>(t)]);
+    S->joined[ids[static_cast<size_t>(t)]] = true;
+    S->holders--;
+    check_heartbeats_alive("after join");
+  }
+  // C14: the whole capacity is available again
+  set_phase("final");
+  S->holders = 0;
+  std::vector<WArg> fargs(kN);
+  std::vector<int> fids(kN);
+  for (size_t t = 0; t < kN; ++t) {
+    fargs[t].tid = static_cast<int>(t);
+    fids[t] = dsim::spawn(final_fn, &fargs[t], "fresh");
+  }
+  for (size_t t = 0; t < kN; ++t) {
+    dsim::join(fids[t]);
+    S->joined[fids[t]] = true;
+  }
+  for (size_t a = 0; a < kN; ++a)
+    for (size_t b = a + 1; b < kN; ++b)
+      if (S->final_ids[a] == S->final_ids[b]) {
+        ORACLE("[C14][C05]", "final-round-duplicate-id", " :: two of the %zu fresh threads that were alive together got ID %d", kN, S->final_ids[a]);
+      }
+  check_heartbeats_alive("end of run");
+  set_phase("teardown");
+  S->hbs.clear();
+  delete S;
+  S = nullptr;
+}
+
+void generate(Program &prog, dsim::Config &cfg, dsim::Rng &pr, dsim::Rng &cr, int, int profile)
+{
+  const int n = static_cast<int>(kN);
+  int T;
+  switch (profile) {
+    case kTogether: T = 1 + static_cast<int>(pr.below(static_cast<uint64_t>(n + 2))); break;
+    case kWaves: T = n + 1 + static_cast<int>(pr.below(5)); break;
+    default: T = n + 1 + static_cast<int>(pr.below(3)); break;
+  }
+  if (T > 14) T = 14;
+  const int pattern = static_cast<int>(pr.below(4));  // all equal, adjacent, wrap (N-1), random
+  const size_t base = pr.below(1000);
+  prog.params = {static_cast<int64_t>(n), pattern};
+  prog.threads.clear();
+  for (int t = 0; t < T; ++t) {
+    Op o;
+    o.kind = 0;
+    o.obj = profile == kTogether ? 0 : static_cast<int>(pr.below(profile == kWaves ? 7 : 3));
+    switch (pattern) {
+      case 0: o.a = static_cast<int64_t>(base); break;
+      case 1: o.a = static_cast<int64_t>(base + static_cast<size_t>(t)); break;
+      case 2: o.a = static_cast<int64_t>(static_cast<size_t>(n) * (1 + base) + static_cast<size_t>(n) - 2 + static_cast<size_t>(t % 2)); break;
+      default: o.a = static_cast<int64_t>(pr.below(100000)); break;
+    }
+    o.b = 1 + static_cast<int64_t>(pr.below(profile == kTogether ? 4 : 2));
+    o.c = static_cast<int64_t>(pr.below(profile == kExitRace ? 3 : 9));
+    prog.threads.push_back({o});
+  }
+  const uint64_t s = cr.below(100);
+  if (s < 30) cfg.strategy = dsim::kRandom;
+  else if (s < 55) cfg.strategy = dsim::kSticky;
+  else if (s < 80) cfg.strategy = dsim::kPCT;
+  else cfg.strategy = dsim::kStall;
+  cfg.pct_depth = 1 + static_cast<int>(cr.below(3));
+  cfg.pct_len = 30 + T * 25;
+  cfg.sticky_percent = 40 + static_cast<int>(cr.below(55));
+  if (cfg.strategy == dsim::kStall) {
+    cfg.stall_permille = 15 + static_cast<int>(cr.below(50));
+    cfg.stall_max = 30 + static_cast<int>(cr.below(800));
+  }
+  cfg.spin_bound = 3 * n + 12;
+  cfg.max_steps = 200000;
+}
+
+std::string render(const Program &p)
+{
+  static const char *pat[] = {"all probe starts equal", "adjacent probe starts", "probe starts at the end of the table (wrap)", "random probe starts"};
+  std::string s = "IDManager capacity " + std::to_string(p.params.empty() ? 0 : p.params[0]) + ", " + std::to_string(p.threads.size()) +
+                  " threads over time, " + pat[(p.params.size() > 1 ? p.params[1] : 3) & 3] + "; afterwards " +
+                  std::to_string(p.params.empty() ? 0 : p.params[0]) + " fresh threads alive together\n";
+  for (size_t t = 0; t < p.threads.size(); ++t) {
+    const Op &o = p.threads[t][0];
+    s += "  T" + std::to_string(t + 1) + ": spawned after " + std::to_string(o.obj) + " yields, probe hash " + std::to_string(o.a) + ", GetThreadID x" +
+         std::to_string(o.b) + " + GetHeartBeat, holds for " + std::to_string(o.c) + " yields, exits\n";
+  }
+  return s;
+}
+
+std::string tags_for_runtime_class(const Program &, const char *cls)
+{
+  const std::string c = cls;
+  if (c.rfind("deadlock", 0) == 0) return std::string(phase()) == "final" ? "[C14] capacity-lost" : "[C14] claim-never-returns";
+  if (c.rfind("crash/", 0) == 0) return "[C05][C14][C15]";
+  if (c.rfind("heap/", 0) == 0) return "[C15]";
+  return "[inconclusive]";
+}
+
+void process_init()
+{
+  const char *e = getenv("VERIF_PROP");
+  g_prop = e ? std::string("[") + e + "]" : "";
+}
+}  // namespace
+
+const Scenario kIdmScenario = {"idm", generate, entry, render, tags_for_runtime_class, kProbeNames, process_init};
+
+}  // namespace sim
